@@ -145,5 +145,4 @@ def expr(c):
 
 
 K.FAMILIES["demand"] = (gen_case, run_impl, expr)
-if "Demand" not in K.HEADER:
-    K.HEADER = K.HEADER.replace(" Run.", " Demand Run.")
+K.add_imports("Distrib", "Kinds", "TimeArea", "Boundary", "Demand")
